@@ -10,6 +10,7 @@ def run(run):
     d = run.driver
     import concepts
     prev = None
+    turn = 0
     for tab, pc0 in lat.contexts(run, exh_quick=10, rand_quick=500, wide_quick=40, exh_thorough=14, nmax=10, mmax=9):
         if min(pc0.n, pc0.m) > 12:
             continue
@@ -21,7 +22,8 @@ def run(run):
         check_one(run, d, tab, pc0, None, 0, concepts)
         if prev is not None:
             ptab, ppc, pdd = prev
-            check_one(run, d, ptab, ppc, pdd, 1 + run.evaluations % 2, concepts)
+            turn += 1
+            check_one(run, d, ptab, ppc, pdd, 1 + turn % 2, concepts)
         prev = (tab, pc0, dd0)
 
 
